@@ -4,12 +4,15 @@ import (
 	"bufio"
 	"fmt"
 	"io"
+	"os"
 	"os/exec"
 	"sort"
 	"strconv"
 	"strings"
 	"time"
 )
+
+var slowMs = func() int { n, _ := strconv.Atoi(os.Getenv("VSLOW")); return n }()
 
 type Result int
 
@@ -29,6 +32,7 @@ type Solver struct {
 	in      io.WriteCloser
 	out     *bufio.Reader
 	defined map[int]bool
+	stack   []*Term // assertions currently on the solver's stack, one push frame each
 	seq     int
 	// statistics
 	Queries   int
@@ -188,16 +192,33 @@ func (s *Solver) Check(asserts []*Term) (Result, Model) {
 			varset[v.ID] = v
 		}
 	}
-	sb.WriteString("(push 1)\n")
+	// incremental: the solver's assertion stack mirrors the previous query; only
+	// the frames that differ are popped and pushed (one frame per assertion)
+	var eff []*Term
 	for _, a := range asserts {
-		if a.IsTrue() {
-			continue
+		if !a.IsTrue() {
+			eff = append(eff, a)
 		}
-		fmt.Fprintf(&sb, "(assert %s)\n", refSMT(a))
+	}
+	common := 0
+	for common < len(s.stack) && common < len(eff) && s.stack[common] == eff[common] {
+		common++
+	}
+	if n := len(s.stack) - common; n > 0 {
+		fmt.Fprintf(&sb, "(pop %d)\n", n)
+		s.stack = s.stack[:common]
+	}
+	for _, a := range eff[common:] {
+		fmt.Fprintf(&sb, "(push 1)\n(assert %s)\n", refSMT(a))
+		s.stack = append(s.stack, a)
 	}
 	sb.WriteString("(check-sat)\n")
+	tq := time.Now()
 	s.send(sb.String())
 	lines := s.sync()
+	if slowMs > 0 && time.Since(tq) > time.Duration(slowMs)*time.Millisecond && len(eff) > 0 {
+		fmt.Fprintf(os.Stderr, "SLOW %v: %d asserts, %d new, last: %s\n", time.Since(tq), len(eff), len(eff)-common, show(eff[len(eff)-1], 5))
+	}
 	res := Unknown
 	bad := false
 	for _, l := range lines {
@@ -253,7 +274,13 @@ func (s *Solver) Check(asserts []*Term) (Result, Model) {
 			}
 		}
 	}
-	s.send("(pop 1)\n")
+	if bad {
+		// resynchronise after an error: drop the whole stack
+		if len(s.stack) > 0 {
+			s.send(fmt.Sprintf("(pop %d)\n", len(s.stack)))
+			s.stack = nil
+		}
+	}
 	switch res {
 	case Sat:
 		s.SatN++
